@@ -19,6 +19,8 @@ package reflect
 import (
 	"errors"
 	"unsafe"
+
+	"github.com/cloudwego/frugal/internal/defs"
 )
 
 var mapAppendFuncs = map[struct{ k, v ttype }]appendFuncType{}
@@ -29,6 +31,10 @@ func updateMapAppendFunc(t *tType) {
 	}
 
 	f, ok := mapAppendFuncs[struct{ k, v ttype }{k: t.K.T, v: t.V.T}]
+	if ok && t.V.Tag == defs.T_binary {
+		// tSTRING fast paths range over map[K]string, []byte values have a different layout
+		ok = false
+	}
 	if ok {
 		t.AppendFunc = f
 		return
